@@ -79,6 +79,7 @@ class Tracker(CmdMixin, MboxMixin, SweepMixin, Monitor):
     def on_step(self, world, st):
         if not self.enabled:
             return
+        nv0 = len(self.violations)
         d = diff_tables(st.before, st.after)
         ud = diff_tables(st.ubefore, st.uafter) if self.usage_on else []
         st.extra["diff"] = d
@@ -108,6 +109,12 @@ class Tracker(CmdMixin, MboxMixin, SweepMixin, Monitor):
         self._structural(world, st)
         self._resync(world, st)
         self._shape(world, st)
+        if len(self.violations) > nv0:
+            # whatever went wrong, the objects alive now are no longer judged by the lifetime oracles
+            for m in self.mb.values():
+                m.taint.add("contaminated")
+            for n in self.np.values():
+                n.taint.add("contaminated")
 
     # ------------------------------------------------------------------
     def _on_connect(self, world, st):
